@@ -25,7 +25,10 @@ pub struct Store {
 
 impl Store {
     pub fn new(path: &str) -> StoreResult<Self> {
+        #[cfg(not(hotstuff_verif))]
         let db = rocksdb::DB::open_default(path)?;
+        #[cfg(hotstuff_verif)]
+        let db = verif::open(path)?;
         let mut obligations = HashMap::<_, VecDeque<oneshot::Sender<_>>>::new();
         let (tx, mut rx) = channel(100);
         tokio::spawn(async move {
@@ -107,6 +110,15 @@ pub mod verif {
 
     pub fn set_write_observer(observer: Option<Observer>) {
         OBSERVER.with(|o| *o.borrow_mut() = observer);
+    }
+
+    /// Same as `DB::open_default`, but RocksDB opens table files with one thread instead of
+    /// spawning 16 short-lived threads per open (thread creation dominates short simulations).
+    pub(crate) fn open(path: &str) -> Result<rocksdb::DB, rocksdb::Error> {
+        let mut options = rocksdb::Options::default();
+        options.create_if_missing(true);
+        options.set_max_file_opening_threads(1);
+        rocksdb::DB::open(&options, path)
     }
 
     pub(crate) fn observe_write(key: &[u8], value: &[u8]) {
